@@ -252,6 +252,7 @@ class ReAuthRequest(ReAuth):
         setattr(self, "auth_application_id", 0)
         setattr(self, "proxy_info", [])
         setattr(self, "route_record", [])
+        setattr(self, "state_class", [])
         setattr(self, "framed_ipv6_prefix", [])
         setattr(self, "reply_message", [])
         setattr(self, "charging_rule_install", [])
